@@ -154,6 +154,13 @@ Proof.
 Qed.
 Print Assumptions C20_trailing_axes_pointwise.
 
+(* jump(w, u, v): (-1)^(w.idx[i]) times argument i (the traces of the two sides of an interior facet); identity without w.idx *)
+Theorem C20_jump : forall R ops, is_ring R ops -> forall u v : R,
+  (np_jump_none_0 u v = u /\ np_jump_none_1 u v = v) /\ (np_jump_01_0 u v = u /\ np_jump_01_1 u v = (- v)%F) /\
+  (np_jump_10_0 u v = (- u)%F /\ np_jump_10_1 u v = v) /\ np_jump_0_0 u v = u /\ np_jump_1_0 u v = (- u)%F.
+Proof. intros R ops H u v. exact (jump_def H u v). Qed.
+Print Assumptions C20_jump.
+
 (* the NumPy and the JAX variant of each helper present in both modules are the same function
    (per-helper lemmas are generated in Gen.C20Agree from the two translations; 3x3 det below) *)
 Theorem C20_numpy_jax_agree : forall R (ops : FOps R) n (u v w : vec R) (A : mat R) (S T : ten3 R) (c : R) i j k,
